@@ -87,6 +87,12 @@ var checks = map[string]checkCfg{
 		Phases: []phase{
 			{Name: "enum", Variant: "plain", Tests: "^TestC12$", QuickShards: 8, ThoroughShards: 16},
 			rp("rapid", "^TestC12Rapid$", 4, 3000, 16, 30000)}},
+	"C13": {Level: "exploration", Technique: "rapid round-trip / differential-vs-nfsx / allocation-bounded codec properties + native fuzz of DecodeRPCCall and ReadRecord",
+		Rule:        "each case picks a codec (XDR string, file handle, RPC call header, AUTH_SYS body, RPC reply, record reader, record writer, hostile declared length), a length from {0..9, limit-1, limit, limit+1, random}, contents with or without NUL, an optional truncation point and a fragmentation (list of fragment sizes incl. zero-length fragments); non-trivial = length not a multiple of 4, or >=2 fragments, or a truncated / hostile-length input; distinct = FNV-64 of the case JSON; thorough adds two native fuzz campaigns",
+		Assumptions: baseAssumptions,
+		Phases: []phase{rp("rapid", "^TestC13$", 6, 4000, 16, 100000),
+			{Name: "fuzz-call", Variant: "plain", ThoroughOnly: true, Fuzz: "^FuzzC13Call$", FuzzSeconds: 90, ThoroughShards: 1},
+			{Name: "fuzz-record", Variant: "plain", ThoroughOnly: true, Fuzz: "^FuzzC13Record$", FuzzSeconds: 90, ThoroughShards: 1}}},
 	"C02": {Level: "exploration", Technique: "rapid histories vs POSIX tree model + cached-vs-uncached differential",
 		Rule:        "cases are rapid-generated sequential histories of LOOKUP/CREATE/MKDIR/SYMLINK/REMOVE/RMDIR/RENAME/READDIR(PLUS)/GETATTR/READLINK over names {a,b,c} to depth 3, addressed through every handle ever issued (stale ones included); each history runs under the all-off baseline and k cached configurations (quick 3, thorough 6 of 15); non-trivial = a read-type request on a name or directory affected by an earlier successful mutation, executed under a configuration with at least one cache on; distinct = FNV-64 of the case JSON",
 		Assumptions: append([]string{"documented latitude L1-L7 of DESIGN.md §5 C02 (REMOVE of empty dir, UNCHECKED/EXCLUSIVE on existing objects, error code identity not compared against the model, path-bound handles)"}, baseAssumptions...),
